@@ -226,6 +226,13 @@ class Exec(BufMixin, FlatMixin):
         r = self.buf_subscript(st, fr, base, idx, node)
         if r is not NotImplemented:
             return r
+        if isinstance(base, V.SymList):
+            if isinstance(idx, slice):
+                if idx.start is None and idx.step is None and is_cint(idx.stop) and idx.stop < 0:
+                    return V.SymList(base.n, base.fn, base.drop_last - idx.stop)
+                raise OutOfReach('slice of a list of symbolic length')
+            self.safety(st, fr, 'index_bounds', b_and(compare('GtE', idx, 0), compare('Lt', idx, base.length())), node)
+            return base.fn(st, idx, known_not_last=base.drop_last > 0)
         if isinstance(base, (list, tuple)):
             if isinstance(idx, slice):
                 return base[idx]
@@ -704,9 +711,15 @@ class Exec(BufMixin, FlatMixin):
             return (a.oid == b.oid) == (opn in ('Is', 'Eq'))
         if isinstance(a, Arr) and isinstance(b, Arr) and opn in ('Is', 'IsNot'):
             return (a is b) == (opn == 'Is')
+        if isinstance(a, V.ObjArray) and b is None and opn in ('Eq', 'NotEq'):
+            return V.ObjArray([(x is None) == (opn == 'Eq') for x in a])
         if (a is None or b is None) and opn in ('Is', 'IsNot', 'Eq', 'NotEq'):
             same = (a is None and b is None)
             return same == (opn in ('Is', 'Eq'))
+        if opn in ('In', 'NotIn') and isinstance(b, (tuple, list)) and (isinstance(a, Obj) or a is None) \
+                and all(isinstance(x, Obj) or x is None for x in b):
+            found = any((x is a) or (isinstance(x, Obj) and isinstance(a, Obj) and x.oid == a.oid) for x in b)
+            return found == (opn == 'In')
         if isinstance(a, (str, tuple, list)) or isinstance(b, (str, tuple, list)):
             if opn in ('In', 'NotIn') and isinstance(b, (tuple, list)) and (is_sym(a) or any(is_sym(x) for x in b)):
                 return compare(opn, a, b)
